@@ -438,6 +438,26 @@ def r04_7(run):
                            'runs and the ready notification never fires' % (src(v)[:40], want))
 
 
+def r04_8(run):
+    """an empty password is no password: _do_password_authentication refuses every falsy value the provider may return
+    (None, '', b'') before anything is sent - an empty AUTHENTICATE is the NULL method, which Tor did not advertise here"""
+    u = U(run, '_do_password_authentication')
+    g = cfg_of(u)
+    p = u.params[1]
+    sends = g.nodes_where(lambda n: any(isinstance(a, ast.Call) and callee_attr(a) in ('authenticate', 'queue_command') for a in node_asts(n)))
+    run.floor('R04.8', 'AUTHENTICATE senders in _do_password_authentication', len(sends), 1)
+    for val, label in ((None, 'None'), ('', "''"), (b'', "b''")):
+        def hook(node, v_, trail, val=val):
+            r = eval_small(node.ast, {p: val})
+            return None if r is UNKNOWN else bool(r)
+        for p_ in g.paths(eval_hook=hook, follow_exc=False):
+            run.paths_enumerated += 1
+            sent = any(n in sends for n, _ in p_.steps)
+            run.ob('R04.8', u, u.node, 'a %s password is refused before AUTHENTICATE' % label, not sent, slot='empty-password:%s' % label,
+                   message='_do_password_authentication sends AUTHENTICATE for the password %s: that is NULL authentication, a method the server did not offer' % label,
+                   path=p_.describe(6))
+
+
 def r04_5(run):
     ci = proto(run)
     sites = []
@@ -541,12 +561,14 @@ RULES = [
     ('R04.4', 'dominance: AUTHENTICATE behind compare_via_hash success; HMAC keys/message per control-spec 3.24; taint of the raw cookie', r04_4),
     ('R04.5', 'post_bootstrap fired once: callback last in _bootstrap, errback in _auth_failed; dropped chains end in addErrback(_auth_failed)', r04_5),
     ('R04.7', 'every authentication leg chains the bootstrap (must-pass-through between the command and the return of its Deferred)', r04_7),
+    ('R04.8', 'falsy passwords (None, empty str/bytes) are refused before AUTHENTICATE (representatives through the test)', r04_8),
     ('R04.6', 'reaching definitions: cookie path = unescape_quoted_string(regex group)', r04_6),
 ]
 
 from ..selftest import M  # noqa: E402
 F = 'txtorcon/torcontrolprotocol.py'
 MUTANTS = [
+    M('empty-password-sent', F, "        if not passwd:\n            raise RuntimeError(\"No password available.\")", "        if passwd is None:\n            raise RuntimeError(\"No password available.\")", ['R04.8']),
     M('cookie-leg-no-bootstrap', F, "                d = self.authenticate(self._cookie_data)\n                d.addCallback(self._bootstrap)\n", "                d = self.authenticate(self._cookie_data)\n", ['R04.7']),
     M('safecookie-leg-no-bootstrap', F, "                d.addCallback(self._safecookie_authchallenge)\n                d.addCallback(self._bootstrap)\n", "                d.addCallback(self._safecookie_authchallenge)\n", ['R04.7']),
     M('getinfo-in-connectionMade', F, "        d = self.protocolinfo()\n        d.addCallback(self._do_authenticate)", "        self.queue_command('GETINFO version')\n        d = self.protocolinfo()\n        d.addCallback(self._do_authenticate)", ['R04.1']),
